@@ -517,6 +517,8 @@ class Exec:
         self.acc = Acc()
         self.fork_mode = os.environ.get('VERIF_FORK', '0') == '1'
         self.use_bf = os.environ.get('VERIF_BF', '1') == '1'
+        self.export_dir = os.environ.get('VERIF_EXPORT_SMT') or None
+        self.export_every = int(os.environ.get('VERIF_EXPORT_EVERY', '997'))
         self._fork_dir = None
         self._is_root = True
         self.path_max_depth = 0
@@ -549,6 +551,11 @@ class Exec:
         self.stats['solver_s'] += time.time() - t
         if r == z3.unknown:
             raise EngineError('solver returned unknown')
+        if self.export_dir and self.stats['queries'] % self.export_every == 0 and self.stats.get('exported', 0) < 40:
+            # second-opinion sample (cvc5 / z3 4.8.12 re-decide it later)
+            from . import crosscheck
+            crosscheck.export_query(self.export_dir, self.stats['queries'], self.solver.assertions(), cond, r == z3.sat)
+            self.stats['exported'] = self.stats.get('exported', 0) + 1
         node[0].append(r == z3.sat)
         return r == z3.sat
 
